@@ -34,6 +34,10 @@ type NodeConfig struct {
 	// PremiumPPM, if set, holds default premium rates "btc/in", "btc/out", "lbtc/in", "lbtc/out" (ppm) that the
 	// operator configured (stored through the real premium.Setting at every start).
 	PremiumPPM map[string]int64
+	// BtcAdapter selects the Bitcoin wallet adapter: "" = the harness mirror of clightning_wallet.go over the real
+	// onchain helpers; "cln" = the real clightning.ClightningClient wallet methods over a fake lightningd / bitcoind.
+	BtcAdapter string
+	CLNVersion string // version reported by the fake lightningd ("" = v24.08)
 }
 
 // DefaultNodeConfig is a permissive two-chain configuration.
@@ -216,7 +220,16 @@ func (n *Node) Start(opts ...StartOpts) error {
 
 	ln := &lnWrap{inc: inc}
 	ms := &msgWrap{inc: inc}
-	btcWallet := &walletWrap{inc: inc, chain: "btc", real: n.BtcW.forInc(inc)}
+	var btcReal swap.Wallet = n.BtcW.forInc(inc)
+	if n.Cfg.BtcAdapter == "cln" {
+		// the real clightning wallet adapter over a fake lightningd and a fake bitcoind
+		cw, err := n.BtcW.newCLNWallet(inc)
+		if err != nil {
+			return err
+		}
+		btcReal = cw
+	}
+	btcWallet := &walletWrap{inc: inc, chain: "btc", real: btcReal}
 	btcVal := &validatorWrap{inc: inc, chain: "btc", real: n.BtcW.onchain}
 	lw := n.LbtcW.forInc(inc)
 	lbtcWallet := &walletWrap{inc: inc, chain: "lbtc", real: lw}
